@@ -71,22 +71,29 @@ POOL_CORE_NAMES = [
 
 
 def pool_ext():
-    """core + custom __eq__ (Variable), index notation (cached index slots), list tensors, conditionals."""
+    """custom __eq__ (Variable), index notation (cached index slots), list tensors, conditionals + 3 core objects."""
     a, b = _base(), _base()
-    core = pool_core()
+    p0 = (a["f"] + a["g"]) * ufl.sin(a["f"])
+    p1 = (b["f"] + b["g"]) * ufl.sin(b["f"])
+    p2 = _operand(p0, C.Sum)
     i7 = C.Index(U.I7)
-    p7 = C.Variable(a["f"] + a["g"], C.Label(5))
-    p8 = C.Variable(b["f"] + b["g"], C.Label(5))
-    p9 = ufl.as_vector([a["v"][i7] * a["v"][i7], a["f"] + a["g"]])[0] + ufl.conditional(ufl.lt(a["f"], a["g"]), a["f"] + a["g"], a["c"])
-    p10 = ufl.as_vector([b["v"][i7] * b["v"][i7], b["f"] + b["g"]])[0] + ufl.conditional(ufl.lt(b["f"], b["g"]), b["f"] + b["g"], b["c"])
-    return core + [p7, p8, p9, p10]
+    p3 = C.Variable(p2, C.Label(5))  # wraps the operand object of p0
+    p4 = C.Variable(b["f"] + b["g"], C.Label(5))
+    p5 = ufl.as_vector([a["v"][i7] * a["v"][i7], p2])[0] + ufl.conditional(ufl.lt(a["f"], a["g"]), p2, a["c"])
+    p6 = ufl.as_vector([b["v"][i7] * b["v"][i7], b["f"] + b["g"]])[0] + ufl.conditional(
+        ufl.lt(b["f"], b["g"]), b["f"] + b["g"], b["c"]
+    )
+    return [p0, p1, p2, p3, p4, p5, p6]
 
 
-POOL_EXT_NAMES = POOL_CORE_NAMES + [
-    "p7=Variable(f+g, Label(5))",
-    "p8=Variable(f+g, Label(5)) [independent copy]",
-    "p9=as_vector([v[i]*v[i], f+g])[0] + conditional(f<g, f+g, c)",
-    "p10=same as p9 [independent copy]",
+POOL_EXT_NAMES = [
+    "p0=(f+g)*sin(f)",
+    "p1=(f+g)*sin(f) [independent copy]",
+    "p2=the Sum operand object of p0",
+    "p3=Variable(p2, Label(5))",
+    "p4=Variable(f+g, Label(5)) [independent copy]",
+    "p5=as_vector([v[i]*v[i], p2])[0] + conditional(f<g, p2, c)",
+    "p6=same expression as p5 [independent copy]",
 ]
 
 
@@ -271,7 +278,7 @@ def plan(quick):
     # (pool, max history length, max length with the value check)
     if quick:
         return [("core", 3, 2), ("ext", 2, 2), ("forms", 2, 0)]
-    return [("core", 4, 3), ("ext", 3, 2), ("forms", 3, 0)]
+    return [("core", 4, 3), ("ext", 3, 3), ("forms", 3, 0)]
 
 
 def run_histories(run, quick):
